@@ -43,7 +43,9 @@ def make_spec():
              "enabled": True, "elements": elements}
         v.update(kw)
         return v
-    vectors = [vec("t", "Text", els("Text", 2)), vec("n", "Number", els("Number", 2, format="%.2f", min=0, max=100, step=1)),
+    numbers = els("Number", 3, format="%.2f", min=0, max=100, step=1)
+    numbers[2]["format"] = "%.6m"          # a sexagesimal element: its rendering is not a plain printf
+    vectors = [vec("t", "Text", els("Text", 2)), vec("n", "Number", numbers),
                vec("s", "Switch", els("Switch", 3), rule="OneOfMany", default_on="S0"), vec("l", "Light", els("Light", 1)),
                vec("b", "BLOB", els("BLOB", 1))]
     return {"name": "DEV", "levels": [{"groups": [{"attr": "g", "name": "G", "enabled": True, "vectors": vectors}]}]}
@@ -108,6 +110,10 @@ def catalogue():
         ("number-nan-as-text", new_vec("Text", "DEV", "NUMBER_V", [one_child("Text", "N0", "nan")]), {("NUMBER_V", "N0")}),
         ("number-inf-as-text", new_vec("Text", "DEV", "NUMBER_V", [one_child("Text", "N0", "inf")]), {("NUMBER_V", "N0")}),
         ("number-infinity-as-text", new_vec("Text", "DEV", "NUMBER_V", [one_child("Text", "N0", "-Infinity")]), {("NUMBER_V", "N0")}),
+        ("number-huge-finite-to-sexagesimal-format", new_vec("Number", "DEV", "NUMBER_V", [one_child("Number", "N2", "1e308")]), {("NUMBER_V", "N2")}),
+        ("number-huge-negative-to-sexagesimal-format", new_vec("Number", "DEV", "NUMBER_V", [one_child("Number", "N2", "-9e307")]), {("NUMBER_V", "N2")}),
+        ("number-huge-finite-to-printf-format", new_vec("Number", "DEV", "NUMBER_V", [one_child("Number", "N0", "1e308")]), {("NUMBER_V", "N0")}),
+        ("number-tiny-to-sexagesimal-format", new_vec("Number", "DEV", "NUMBER_V", [one_child("Number", "N2", "1e-320")]), {("NUMBER_V", "N2")}),
         ("number-huge-sexagesimal", new_vec("Number", "DEV", "NUMBER_V", [one_child("Number", "N0", "1e400:30")]), set()),
         ("number-underscore-as-text", new_vec("Text", "DEV", "NUMBER_V", [one_child("Text", "N0", "1_000")]), {("NUMBER_V", "N0")}),
         ("sexagesimal-to-printf-number", new_vec("Number", "DEV", "NUMBER_V", [one_child("Number", "N0", "1:30")]), {("NUMBER_V", "N0")}),
